@@ -49,7 +49,7 @@ theorem inv_fresh (cap : Option Nat) : Inv (Dec.fresh cap) := Dec.inv_fresh cap
 
 theorem inv_pushByte {d : Dec} (h : Inv d) (b : UInt8) :
     Inv (d.pushByte b).1 ∧ (d.pushByte b).1.buf.cap = d.buf.cap ∧
-      ∀ s, (d.pushByte b).2 ≠ Res.panic s :=
+      (d.pushByte b).1.raw ≤ d.raw + 1 ∧ ∀ s, (d.pushByte b).2 ≠ Res.panic s :=
   Dec.pushByte_good h b
 
 theorem inv_push {d : Dec} (h : Inv d) (b : UInt8) :
